@@ -320,9 +320,16 @@ def run_cases(ck: Check, n: int):
             except Exception:  # noqa: BLE001  (only the rendering on `grid` is judged here)
                 pass
             ck.count("rendered_on_twin_grid_first")
+        d_asked = d.copy()  # what the caller asked to be drawn
         check_field(ck, d, grid, reqs, expect)
         if twin is not None and list(twin.periodic) != list(grid.periodic):
             check_field(ck, d, twin, reqs, expect)
+        # a picture is a picture OF THE DROPLET ASKED FOR: drawing must not alter the droplet (all later pictures of the same object, on this
+        # or another grid, would show something else - e.g. a centre given outside the box on a periodic axis silently replaced by its image)
+        if d.data.tobytes() != d_asked.data.tobytes():
+            ck.fail(f"rendering changed the droplet itself: asked for {d_asked}, the object now is {d} (later pictures of it show another droplet)",
+                    {"class": type(d).__name__, "grid": type(grid).__name__, "check": "render_leaves_droplet_unchanged"},
+                    {"class": type(d).__name__, "grid": repr(grid), "droplet": str(d_asked), "twin": repr(twin) if twin is not None else None})
         if len(ck.samples) < 3 and cls.startswith("Perturbed"):
             ck.sample({"class": cls, "grid": repr(grid), "droplet": str(d)})
     # corpus: 3-D perturbed droplets centred exactly on a cell centre (zero distance: angle undefined)
